@@ -74,6 +74,8 @@ func MultiBucket(fs afero.Fs, opts ...MultiOption) (*MultiBucketBackend, error) 
 		b.configOnly.metaFs = metaFs
 	}
 	b.metaStore = newMetaStore(b.configOnly.metaFs, modTimeFsCalc(fs))
+	b.metaStore.objectFs = bucketsFs
+	b.metaStore.objectPath = func(bucket, object string) string { return path.Join(bucket, object) }
 
 	return b, nil
 }
